@@ -1719,6 +1719,7 @@ impl World {
                     .map(move |(c, s)| {
                         let p = s.conn.verif_probe(epoch);
                         json!({"n":n.idx,"c":c,"uid":s.uid,"lcids":p.loc_cid_active.len(),"lost":s.lost,"drained":s.drained,
+                            "rem":p.path.remote.map_or(0, addr_id),"val":p.path.validated,
                             "ifb":p.path.in_flight_bytes,"ifae":p.path.in_flight_ack_eliciting,"st":p.state,
                             "tm0":p.timers[0].unwrap_or(-1),"tm6":p.timers[6].unwrap_or(-1),
                             "pcrypto":p.spaces[0].pending_crypto + p.spaces[1].pending_crypto,
